@@ -49,7 +49,7 @@ PROPS["C09"] = {
     "functions": ["Kmer::{rotated_left,rotated_right,pushl,pushr,complement,rev_blocks_2}", "KmerStorage for usize/u64/u128 "
                   "(to_bitarray, from_bitslice, complement, rev_blocks_2, shiftr)", "Reverse/Complement/ReverseComplement(+Mut) for Kmer<_,K,usize>"],
     "bounds": {"all": "storage integer fully symbolic below 2^(K*BITS), per (codec, K, storage) instance listed in coverage.harnesses; "
-                      "rotation counts concrete from {0,1,K-1,K,K+1,2K,65537,u32::MAX}; pushed symbol symbolic"},
+                      "rotation counts concrete from {0,1,K-1,K,K+1,2K,65537,u32::MAX}; pushed symbol symbolic; push/rotate instances include six-bit symbols on u128 with K = 11 and 21 (a symbol slot spanning the two storage words)"},
     "outside": "K values not instantiated; symbolic rotation counts",
 }
 
@@ -200,7 +200,7 @@ PROPS["C20"] = {
                   "ReverseMut/ComplementMut for Seq (composition)"],
     "bounds": {"all": "symbols: all 32 (5-bit) / 16 (4-bit) patterns decided by the solver; sequences: owned Seq<masked::Iupac> of 2, 3 and 13 symbols "
                       "(13 = first symbol that straddles a 64-bit word) with symbolic content, operations mask, unmask, mask;rev, rev;mask, mask;comp, comp;mask "
-                      "checked position-wise with a symbolic probe position; Seq<masked::Dna> of 2 symbols"},
+                      "checked position-wise with a symbolic probe position; Seq<masked::Dna> of 2 symbols (mask and unmask; 16 symbols filling the word for mask in thorough)"},
     "outside": "other lengths; windows at other offsets",
 }
 
@@ -267,7 +267,7 @@ PROPS["C17"] = {
     "mem_gb": 6,
     "functions": ["bio_seq_derive::codec_derive (expansion by the real proc macro inside rustc)", "parse_variants / parse_width (through their observable output)",
                   "the generated Codec impls of every declaration in the family"],
-    "bounds": {"all": "program dimension: fixed family of 16 declarations (widths 1,2,3,4,6,7,8 with and without #[bits]; decimal/hex/binary/u8-suffixed/byte "
+    "bounds": {"all": "program dimension: fixed family of 18 declarations (incl. one whose #[alt] pattern is wider than every discriminant: the width comes from the discriminants alone) (widths 1,2,3,4,6,7,8 with and without #[bits]; decimal/hex/binary/u8-suffixed/byte "
                       "literal discriminants; 2,3,4,5,8,16,40 variants; maximal discriminants 1,3,4,7,8,127,128,254,255; alternatives and display characters) "
                       "+ VERIF_SEED-random declarations (6 quick / 24 thorough) + in thorough every maximal discriminant 1..=255 for the default-width rule; "
                       "8 malformed declarations. data dimension: for the fixed family every codec law is decided by the solver for all 256 bytes in both build "
